@@ -184,6 +184,35 @@ func runC12(c *Ctx) {
 		}
 		c.check(good, rule, name+"/key", w.pos(f.Pos()), "key = getFullAddr(ToLower(protocol), host, port, transId)", name+" does not build its key as getFullAddr(strings.ToLower(protocol), host, port, transId)")
 	}
+	// the transaction id is a function of the message as it is now: CSeq method and top Via branch read in this very
+	// call. (A remembered id goes stale when the top Via is popped in place - the response is then looked up under the
+	// proxy's own branch and leaves on a newly dialled connection.)
+	if f := c.fn(rule, "(*Message).GetClientTransaction"); f != nil {
+		good, n := true, 0
+		for _, r := range returnsUnder(f, nil) {
+			if len(r.Results) != 2 || !isNilConst(r.Results[1]) {
+				continue
+			}
+			for _, v := range phiLeaves(r.Results[0]) {
+				n++
+				sv := w.evalStr(v, senv{}, 0)
+				txt := renderParts(sv.parts, func(x ssa.Value) string {
+					if b, ok := isLoadOf(x, "CSeq.Method"); ok && w.resultOfCallTo(b, "(*Message).GetCSeq", 0) != nil {
+						return "method"
+					}
+					if cc, idx := callOfResult(x); cc != nil && idx == 0 && (w.calleeName(cc) == "(*Message).GetTopViaBranch" || w.calleeName(cc) == "(*ViaParam).GetBranch") {
+						return "branch"
+					}
+					return "?"
+				})
+				if txt != "{method:%s}-{branch:%s}" {
+					good = false
+					c.info(rule, "GetClientTransaction/term", w.ipos(r), txt)
+				}
+			}
+		}
+		c.check(good && n >= 1, rule, "GetClientTransaction/computed-from-current-headers", w.pos(f.Pos()), "CSeq method + '-' + top Via branch, read in this call", "GetClientTransaction does not answer with the CSeq method and the top Via branch read in this very call (a remembered value, or other components): after the top Via has been popped the id is that of the proxy's own hop, the response's connection entry is not found and the response leaves on a newly dialled connection")
+	}
 	// the removal drops the entry stored under that key, and nothing else
 	if f := c.fn(rule, "(*ClientTransportMgr).RemoveTransport"); f != nil {
 		n, good := 0, true
@@ -246,7 +275,7 @@ func runC12(c *Ctx) {
 			c.check(cls == "literal" && isS && s == "", rule, "loop/accepted-connection-key", w.ipos(cs.In), "accepted connections are registered under their literal remote address without transaction", "an accepted connection is registered under a key that lookups for resolved hosts cannot produce")
 		}
 	}
-	c.floor(rule, 8)
+	c.floor(rule, 9)
 
 	// ---- (3) remove on final ----
 	rule = "remove-on-final"
@@ -388,6 +417,10 @@ func runC12(c *Ctx) {
 	c12Expiry(c, "table-semantics")
 	// the method the transaction key and the BYE/INVITE tests rest on comes from the CSeq header (rule shared with C14/C17)
 	ruleTokenSplitting(c, "register", "ParseCSeq")
+	// the connection a request arrived on has to be there when the response comes, however long the peer stays silent
+	// meanwhile: nothing puts a read deadline on a connection (rule shared with C11) - an idle time-out that counts only
+	// what the peer sends closes the connection under a pending transaction
+	ruleNoReadDeadline(c, "register")
 }
 
 // c12Expiry: an entry of the client transport table leaves it by age alone. TCPClientTransport.IsExpired is true only
